@@ -56,6 +56,12 @@ def run(chk, binary):
         if k == 1 and not any(c in ("-c", "--cut") for c in cmds):
             fopts = []
         text = rng.choice(INPUTS)
+        if rng.random() < 0.03:
+            # a long input: more lines than any batch, chunk or pool size a driver may hand out at once
+            nl = rng.choice([65, 97, 100, 130, 200, 257, rng.randint(66, 300)])
+            text = "".join(f"{'w' * (i % 7)} n{i} {rng.choice(['foo', 'bar', 'é', ''])}\n" for i in range(nl))
+            if rng.random() < 0.3:
+                text = text[:-1]
         via_file = rng.random() < 0.4
         serial = rng.random() < 0.4
         regflow = "--else" in cmds and cmds[0] in ("-g", "-v") and len(cmds) == 12
